@@ -1062,7 +1062,7 @@ class Catchment(object):
         flowdir = Grid.from_dict(dic["flowdir"])
         catchment = Catchment(dic["name"], flowdir)
         catchment._idxcell_outlet = dic["idxcell_outlet"]
-        catchment._idxintlets = dic["idxinlets"]
+        catchment._idxinlets = dic["idxinlets"]
 
         area = np.array(dic["idxcells_area"]).astype(np.int64)
         catchment._idxcells_area = area
